@@ -66,6 +66,29 @@ def main():
                 ok, why = server_serves(addr)
                 if not ok:
                     viol.append('server no longer serves healthy clients: ' + why)
+        if name in ('no_ctrl_connect', 'all') and server.is_alive():
+            # a client that sends a complete worker request and dies before it connects the control channel (a: after reading the
+            # control address, b: without reading it)
+            for variant in ('after reading the control address', 'without reading the control address'):
+                w = RemoteWorker(T.square, args=(3,), host=addr, run=False)
+                s = raw(addr)
+                send_msg(s, (None, True))
+                send_msg(s, w)
+                if variant.startswith('after'):
+                    try:
+                        obs['control_addr'] = repr(recv_msg(s))
+                    except Exception as e:      # noqa
+                        obs['control_addr'] = f'{type(e).__name__}: {e}'
+                s.close()
+                time.sleep(0.5)
+                if not server.is_alive():
+                    viol.append(f'server process died after a client vanished {variant}')
+                    break
+                ok, why = server_serves(addr)
+                obs[f'serves_after_client_vanished_{variant.split()[0]}'] = ok
+                if not ok:
+                    viol.append(f'a client that sent a worker request and vanished {variant} (before connecting the control channel) blocks the server: ' + why)
+                    break
         if name in ('unknown_ctx', 'all') and server.is_alive():
             s = raw(addr)
             send_msg(s, (12345, True))
